@@ -587,7 +587,10 @@ func vpCWRunCut(net *vpKNet, steps []vpCWStep, cut *vpCWCut) (out vpCWOutcome) {
 			panic(vpKCrash{K: k, Name: name, Phase: phase})
 		}
 	}
-	joinId := net.NodeIds[vpCWJoin]
+	var joinId crypto.Hash
+	if len(net.NodeIds) > vpCWJoin {
+		joinId = net.NodeIds[vpCWJoin]
+	}
 	account := func(r *vpCWRun, i int) {
 		s := r.snapOf[i]
 		if s == nil {
@@ -1055,6 +1058,24 @@ func TestVP_C22_known_F8(t *testing.T) {
 			failing = append(failing, fmt.Sprintf("%s: %v", out.CrashAt, out.Err22))
 		}
 	}
+	// the same stop when the process is the joining node itself
+	asJoiner := append([]vpCWStep{}, vpC22F8Witness...)
+	asJoiner[0].Self = vpCWJoin
+	planJ, err := vpCWPlanOf(net, asJoiner)
+	if err != nil || planJ.F8[0] == 0 {
+		t.Fatalf("witness workload (joining node): %v %+v", err, planJ)
+	}
+	for _, cut := range []*vpCWCut{{K: planJ.F8[0], Phase: "after"}, {K: planJ.F8[1], Phase: "before"}} {
+		out := vpCWRunCut(net, asJoiner, cut)
+		c.Case(fmt.Sprint("witness-joiner", *cut), true, "witness-window", "self-is-joining-node")
+		if out.Err22 != nil {
+			if !strings.Contains(out.Err22.Error(), "restart after crash") {
+				t.Fatalf("witness cut %+v (joining node) failed differently: %v", *cut, out.Err22)
+			}
+			failing = append(failing, fmt.Sprintf("(joining node) %s: %v", out.CrashAt, out.Err22))
+		}
+		window = append(window, cut)
+	}
 	if len(failing) > 0 {
 		kit.ReportKnown(t, "C22", "C22-F8", fmt.Sprintf("%d of %d cuts between the two round starts of finalizeNodeAcceptSnapshot leave a store on which SetupNode panics; first: %s", len(failing), len(window), failing[0]))
 	}
@@ -1076,7 +1097,7 @@ func TestVP_C22_crash_points(t *testing.T) {
 	c.Require("nontrivial", "cut-WriteSnapshot", "cut-StartNewRound", "cut-WriteTransaction", "cut-LockUTXOs", "cut-WriteConsensusSnapshot", "nested", "drop-cache",
 		"pledge", "accept", "cut-in-pledge-path", "cut-in-accept-path", "cut-in-accept-path-StartNewRound", "cut-in-accept-path-WriteConsensusSnapshot", "cut-in-pledge-path-WriteSnapshot", "cut-in-pledge-path-WriteConsensusSnapshot")
 	perWorkload := 10
-	kit.SetChecks(kit.N(12, 60))
+	kit.SetChecks(kit.N(10, 60))
 	if kit.Thorough() {
 		perWorkload = 0
 	}
